@@ -3,10 +3,16 @@
 From Coq Require Import List NArith.
 From Coq.Strings Require Import Byte.
 From Coq Require Import Extraction ExtrOcamlBasic.
+From GI Require Import Lib.GoSem Lib.GoSemState.
 From GI Require Import Lib.Bytes Gen.TsParseConsts TsParse.TsParse TsParse.TsSpec TsParse.TsHolds TsParse.TsScript.
+From GI Require Import TsParse.SrcLib Gen.TsParseSrc.
 Extraction Language OCaml.
 Extraction "extracted/tsparse/model.ml" Byte.of_N Byte.to_N
   setup_env cmd_env getenv setenv ts_parse ts_step expand os_expand expand_key quote_meta
   child_env child_lookup dedup_env pwd_key sq join_sp in_quote_after utf8_ok re_literal
   ts_sep_bytes ts_quote do_cmd_cmp c02_holds_on
-  script_lines_tr run_script hstep hrun hcmd_of_line env_listing history_holds hstate_eqb.
+  script_lines_tr run_script hstep hrun hcmd_of_line env_listing history_holds hstate_eqb
+  (* the functions of testscript.go as translated by harness/go2coq (Gen/TsParseSrc.v): the driver runs
+     them beside the model on every request, a test of the translator and of Lib/GoSem*.v *)
+  src_TestScript_parse src_TestScript_expand src_TestScript_Getenv src_TestScript_Setenv src_TestScript_setEnv
+  src_TestScript_cmdEnv split_kv ts_env_cmd.
